@@ -44,6 +44,7 @@ func TestVerifC09(t *testing.T) {
 		c.R.Evaluations--
 		g := world.Generate(r, hosts, o)
 		s.SetHandler(wk.Handler(g.World))
+		s.ResetLog() // the byte log is only needed per world; keeping it would grow without bound
 		check := func(owner *world.Node) {
 			v := g.ViewOf(owner)
 			d := map[string]any{"owner": owner.ID, "kind": owner.Kind, "world_case": n}
